@@ -97,7 +97,7 @@ func (s *StrategyChoiceModule) set(interest *spec.Interest, pitToken []byte, inF
 		return
 	}
 
-	if !s.strategyPrefix.IsPrefix(params.Strategy.Name) {
+	if !s.strategyPrefix.IsPrefix(params.Strategy.Name) || len(params.Strategy.Name) <= len(s.strategyPrefix) {
 		core.LogWarn(s, "Unknown Strategy=", params.Strategy.Name, " in ControlParameters for Interest=", interest.Name())
 		response = makeControlResponse(404, "Unknown strategy", nil)
 		s.manager.sendResponse(response, interest, pitToken, inFace)
